@@ -162,6 +162,35 @@ Qed.
 Lemma merge_loop_top f m a : NoDup (keys a) -> merge_loop f m a = f_merge f m a.
 Proof. intros H. unfold f_merge, f_union. apply merge_loop_spec; auto. Qed.
 
+(* ---------- DeleteFunc with a callback on the live size ---------- *)
+Lemma delete_live_stuck g : forall (t acc : amap), g (length acc) = false ->
+  delete_live g t acc = (acc, repeat (length acc) (length t)).
+Proof.
+  induction t as [|kv t IH]; intros acc G; simpl; auto. rewrite G. rewrite IH by auto. reflexivity.
+Qed.
+Lemma live_trace_stuck g size : g size = false -> forall c, live_trace g size c = repeat size c.
+Proof. intros G. induction c as [|c IH]; simpl; auto. rewrite G. now rewrite IH. Qed.
+
+Lemma delete_live_spec g : forall l, ksorted l ->
+  delete_live g l l = (skipn (drops g (length l) (length l)) l, live_trace g (length l) (length l)).
+Proof.
+  induction l as [|[k v] t IH]; intros Hs; [reflexivity|].
+  destruct Hs as (H1 & H2). cbn [delete_live length drops live_trace fst].
+  destruct (g (S (length t))) eqn:G.
+  - cbn [a_del]. rewrite Z.eqb_refl. rewrite IH by auto.
+    replace (S (length t) - 1)%nat with (length t) by lia. reflexivity.
+  - rewrite delete_live_stuck by (simpl; exact G). cbn [length skipn].
+    now rewrite live_trace_stuck by exact G.
+Qed.
+
+Lemma skipn_sorted n : forall m, ksorted m -> ksorted (skipn n m).
+Proof.
+  induction n as [|n IH]; intros m Hs; [exact Hs|]. destruct m as [|kv t]; [exact Hs|]. simpl. apply IH. now destruct Hs.
+Qed.
+
+Lemma map_const_repeat (z : Z) (l : amap) : map (fun _ => z) l = repeat z (length l).
+Proof. induction l as [|kv t IH]; simpl; auto. now rewrite IH. Qed.
+
 (* ---------- one step ---------- *)
 Definition op_wf (o : bm_op) : Prop :=
   match o with OMerge _ a _ => NoDup (keys (mv a)) | ONew a => ksorted (mv a) | _ => True end.
@@ -172,7 +201,7 @@ Proof. induction m as [|kv t IH]; simpl; auto. now rewrite IH. Qed.
 Lemma step_eq st o : ksorted (mv st) -> op_wf o -> bmap_step st o = fmap_step st o.
 Proof.
   intros Hs Hw.
-  destruct o as [a0| | | |bb a eq| |tb|bb dst|del| |d| | |k|k|v| |k|k d|k v|k v|k|k|bb a f|k ov nv|bb a]; cbn [bmap_step fmap_step].
+  destruct o as [a0| | | |bb a eq| |tb|bb dst|del| |d| | |k|k|v| |k|k d|k v|k v|k|k|bb a f|k ov nv|bb a|g| ]; cbn [bmap_step fmap_step].
   - now destruct a0.
   - reflexivity.
   - reflexivity.
@@ -199,17 +228,19 @@ Proof.
   - destruct st as [x|]; cbn [mv]; auto. cbn [op_wf] in Hw. now rewrite merge_loop_top.
   - destruct st as [m|]; cbn [mv a_get]; auto.
   - unfold equal_loop, f_equal. now destruct (Nat.eqb _ _).
+  - destruct st as [m|]; cbn [mv] in *; auto. now rewrite delete_live_spec.
+  - now rewrite map_const_repeat.
 Qed.
 
 Lemma step_sorted st o : ksorted (mv st) -> op_wf o -> ksorted (mv (fst (fmap_step st o))).
 Proof.
   intros Hs Hw.
   destruct st as [m|]; cbn [mv] in Hs;
-  destruct o as [a0| | | |bb a eq| |tb|bb dst|del| |d| | |k|k|v| |k|k d|k v|k v|k|k|bb a f|k ov nv|bb a]; cbn [fmap_step mv];
+  destruct o as [a0| | | |bb a eq| |tb|bb dst|del| |d| | |k|k|v| |k|k d|k v|k v|k|k|bb a f|k ov nv|bb a|g| ]; cbn [fmap_step mv];
   repeat match goal with
          | |- context [match ?x with _ => _ end] => destruct x
          end; cbn [fst mv ksorted]; unfold f_merge, f_union;
-  auto using a_set_sorted, a_del_sorted, filter_sorted, fold_set_sorted.
+  auto using a_set_sorted, a_del_sorted, filter_sorted, fold_set_sorted, skipn_sorted.
 Qed.
 
 Theorem bmap_refines : forall ops st, ksorted (mv st) -> Forall op_wf ops ->
